@@ -9,7 +9,8 @@ TARGETS = {
     "C16-a": ["C16", "C19"], "C17-a": ["C17"], "C18-a": ["C18"], "C19-a": ["C19"],
     "C01-b": ["C01", "C09"], "C02-b": ["C02", "C03"], "C03-b": ["C03", "C04"], "C04-b": ["C04"], "C06-b": ["C06"],
     "C07-b": ["C07"], "C09-b": ["C09", "C01", "C14"], "C11-b": ["C11"], "C12-b": ["C12", "C11"], "C13-b": ["C13", "C02"],
-    "C14-b": ["C14", "C15", "C11"], "C16-b": ["C16", "C19"], "C17-b": ["C17"], "C19-b": ["C19"],
+    "C14-b": ["C14", "C15", "C11"], "C05-b": ["C05", "C03"], "C08-b": ["C08", "C07"], "C10-b": ["C10"],
+    "C15-b": ["C15"], "C18-b": ["C18"], "C16-b": ["C16", "C19"], "C17-b": ["C17"], "C19-b": ["C19"],
 }
 only = sys.argv[1:]
 for sid in sorted(os.listdir("/verif/seeded")):
